@@ -802,6 +802,22 @@ def common_summaries():
             outs.append((s, mk_option(payload0(ex, s, c, 0)) if ok else mk_option()))
         return outs
 
+    @reg(r'^(std::result::)?Result::<.*>::(and|or)::<.*>$|^(std::result::)?Result::<.*>::(and|or)$')
+    def r_and_or(ex, st, fn, argv):
+        """a.and(b) = b if a is Ok else a's error; a.or(b) = a if a is Ok else b (the other value is dropped)"""
+        is_and = re.search(r'::(and|or)(::<.*>)?$', fn).group(1) == 'and'
+        a = as_enum(ex, st, argv[0])
+        outs = []
+        for (s, c, ok) in ex.fork_on(st, a.disc_bv() == 0, (a, argv[1])):
+            a2, b2 = c
+            keep_b = (ok and is_and) or (not ok and not is_and)
+            ex.drop_fields(s, a2 if keep_b else b2)
+            if keep_b:
+                outs.append((s, b2))
+            else:
+                outs.append((s, mk_err(payload0(ex, s, a2, 1)) if is_and else a2))
+        return outs
+
     @reg(r'^(std::result::)?Result::<.*>::(is_ok|is_err)$')
     def r_is(ex, st, fn, argv):
         o = as_enum(ex, st, deref(ex, st, argv[0]))
